@@ -232,6 +232,7 @@ func (d *decodingReader) decode(f frame.Frame) error {
 		}
 	}
 	sum := d.crc.Sum32()
+	start := d.crc.n
 	var decoded uint32
 	if err := d.dec.Decode(&decoded); err != nil {
 		return unexpectedEOF(err)
@@ -239,8 +240,19 @@ func (d *decodingReader) decode(f frame.Frame) error {
 	if sum != decoded {
 		return errors.E(errors.Integrity, fmt.Errorf("computed checksum %x but expected checksum %x", sum, decoded))
 	}
+	// The checksum cannot cover the message that carries it. Gob ignores
+	// surplus bytes in such a message, so a damaged message length would
+	// silently swallow the batches that follow.
+	if n := d.crc.n - start; n > maxChecksumMessageSize {
+		return errors.E(errors.Integrity, fmt.Errorf("checksum message has %d bytes", n))
+	}
 	return nil
 }
+
+// maxChecksumMessageSize is the largest size of the gob message carrying a
+// batch's checksum: a length byte, type id and delta (2 bytes), and a uint32
+// (at most 5 bytes).
+const maxChecksumMessageSize = 8
 
 // unexpectedEOF translates io.EOF, which inside of a batch always
 // indicates a truncated or damaged stream, to io.ErrUnexpectedEOF so
